@@ -29,7 +29,7 @@ VALUES = {
     "list": [1], "obj": {"a": 1}, "s-notdate": "not a date", "s-x": "x",
     # integers a double cannot represent: JSON integers are exact
     "obj-bool-null": {"enabled": True, "label": None, "n": [False]}, "list-bool-null": [None, True, "x"], "obj-nested": {"a": {"b": [1, {"c": None}]}},
-    "i-2p53+1": 2 ** 53 + 1, "i-int64max": 2 ** 63 - 1, "i-neg-big": -(2 ** 62) - 1, "i-1e20+1": 10 ** 20 + 1,
+    "s-2p53+1": str(2 ** 53 + 1), "i-2p53+1": 2 ** 53 + 1, "i-int64max": 2 ** 63 - 1, "i-neg-big": -(2 ** 62) - 1, "i-1e20+1": 10 ** 20 + 1,
 }
 V, I, L = "VALID", "INVALID", "LENIENT"
 D = datetime.date(2020, 1, 2)
@@ -52,6 +52,7 @@ def table(kind):
         for k in ("i-5", "i-0", "i-neg", "i-1", "i-2", "i-2p53+1", "i-int64max", "i-neg-big", "i-1e20+1"):
             put(k, V, VALUES[k])
         put("s-num", L, 7, 7)
+        put("s-2p53+1", L, 2 ** 53 + 1, 2 ** 53 + 1)      # if a numeric string is coerced at all, it is coerced to the integer it spells
         put("f-5.0", L, 5, 5)
         for k in ("f-1.5", "b-true", "b-false", "s-x", "s-float", "s-true", "list", "obj", "s-plain", "s-empty"):
             put(k, I)
